@@ -1,0 +1,118 @@
+//go:build verif
+// +build verif
+
+// Contracts for package hls, read by /verif's govc (contract-based deductive verification).
+// This file contains comments only; it is compiled only under the build tag "verif" and adds no code.
+
+package hls
+
+//@ import "sync"
+//@ import "sync/atomic"
+//@ import "time"
+//@ import "fmt"
+//@ import "io"
+//@ import "errors"
+//@ import "github.com/cnotch/scheduler"
+
+// ---- assumed contracts on dependencies (scoped to this package) ------------------------------------------
+//@ extern func (mu *sync.RWMutex) Lock() ()
+//@   requires !held(mu)
+//@   modifies held(mu)
+//@   ensures held(mu)
+//@ extern func (mu *sync.RWMutex) Unlock() ()
+//@   requires held(mu)
+//@   modifies held(mu)
+//@   ensures !held(mu)
+//@ extern func (mu *sync.RWMutex) RLock() ()
+//@   requires !held(mu)
+//@   modifies held(mu)
+//@   ensures held(mu)
+//@ extern func (mu *sync.RWMutex) RUnlock() ()
+//@   requires held(mu)
+//@   modifies held(mu)
+//@   ensures !held(mu)
+//@ extern func (f segmentFile) delete() (err error)
+//@   modifies ghostInt(f, "deletes")
+//@   ensures ghostInt(f, "deletes") == old(ghostInt(f, "deletes")) + 1
+//@ extern func scheduler.AfterFunc(d time.Duration, f func(), tag interface{}) (m *scheduler.ManagedJob, err error)
+//@   modifies
+//@ extern func atomic.StoreInt64(addr *int64, val int64) ()
+//@   modifies *addr
+//@   ensures *addr == val
+//@ extern func time.Now() (t time.Time)
+//@   modifies
+//@ extern func (t time.Time) UnixNano() (n int64)
+//@   modifies
+//@ extern func (p *sync.Pool) Get() (x interface{})
+//@   modifies
+//@   fresh x
+//@   ensures typeIs(x, "*bytes.Buffer")
+//@ extern func (p *sync.Pool) Put(x interface{}) ()
+//@   modifies
+//@ extern func errors.New(text string) (err error)
+//@   modifies
+//@   ensures err != nil
+//@ extern func fmt.Fprintf(w io.Writer, format string, a ...interface{}) (n int, err error)
+//@   modifies out(w)
+//@ extern func fmt.Fprint(w io.Writer, a ...interface{}) (n int, err error)
+//@   modifies out(w)
+
+// ---- C10: the playlist window --------------------------------------------------------------------------------------
+// invariant: at most three segments, none nil, each with its file, consecutive sequence numbers
+// (the window never holds more than four entries, so the quantifiers range over constant bounds: ground facts)
+//@ spec func segsOK(s []*segment) bool = len(s) <= 4 && forall(i, 0, 4, i < len(s) ==> s[i] != nil && s[i].file != nil) && forall(i, 1, 4, i < len(s) ==> s[i].sequenceNo == s[i-1].sequenceNo + 1)
+//@ spec func plOK(pl *Playlist) bool = pl != nil && len(pl.segments) <= 3 && segsOK(pl.segments)
+
+// clearSegments keeps exactly the last `remain` segments in order and asks every dropped segment's file to delete itself
+//@ func (pl *Playlist) clearSegments(remain int) ()
+//@   requires pl != nil && 0 <= remain && remain <= 3 && len(pl.segments) <= 4 && segsOK(pl.segments)
+//@   modifies pl.segments, pl.segments[:cap(pl.segments)], ghostAll("deletes")
+//@   local i int
+//@   loop 0: modifies pl.segments[:cap(pl.segments)], ghostAll("deletes")
+//@   loop 0: invariant 0 <= i && i <= len(pl.segments) - remain && sameHdr(pl.segments, old(pl.segments)) && pl == old(pl)
+//@   loop 0: invariant forall(j, i, len(pl.segments), pl.segments[j] == old(pl.segments[j]) && pl.segments[j] != nil && pl.segments[j].file != nil && pl.segments[j].sequenceNo == old(pl.segments[j].sequenceNo))
+//@   loop 0: decreases len(pl.segments) - remain - i
+//@   split len(pl.segments) > remain
+//@   ensures old(len(pl.segments)) <= remain ==> sameHdr(pl.segments, old(pl.segments)) && forall(j, 0, len(pl.segments), pl.segments[j] == old(pl.segments[j]))
+//@   ensures old(len(pl.segments)) > remain ==> len(pl.segments) == remain && forall(j, 0, remain, pl.segments[j] == old(pl.segments[len(pl.segments) - remain + j]))
+
+// addSegment appends the new segment and keeps the last three (bounded storage: older ones are deleted)
+//@ func (pl *Playlist) addSegment(seg *segment) ()
+//@   requires plOK(pl) && !held(&pl.l) && seg != nil && seg.file != nil && (len(pl.segments) > 0 ==> seg.sequenceNo == pl.segments[len(pl.segments)-1].sequenceNo + 1)
+//@   modifies held(&pl.l), pl.segments, pl.segments[:cap(pl.segments)], ghostAll("deletes"), all()
+//@   split len(pl.segments) == 0, len(pl.segments) == 1, len(pl.segments) == 2, len(pl.segments) < cap(pl.segments)
+//@   ensures !held(&pl.l)
+//@   ensures len(pl.segments) == iteInt(old(len(pl.segments)) < 3, old(len(pl.segments)) + 1, 3) && pl.segments[len(pl.segments)-1] == seg
+//@   ensures forall(j, 0, 3, j < len(pl.segments) ==> pl.segments[j] != nil && pl.segments[j].file != nil)
+//@   ensures forall(j, 1, 3, j < len(pl.segments) ==> pl.segments[j].sequenceNo == pl.segments[j-1].sequenceNo + 1)
+
+// a playlist is rendered entirely under the read lock (so a rollover cannot interleave with it), only when three
+// segments exist, with the media sequence of the first listed segment
+//@ func (pl *Playlist) M3u8(token string) (b []byte, err error)
+//@   requires plOK(pl) && !held(&pl.l)
+//@   modifies held(&pl.l), pl.lastAccessTime, all()
+//@   local rangeindex int
+//@   local segments []*segment
+//@   local seq int
+//@   assert[call:Fprintf] held(&pl.l) && len(segments) == 3 && seq == segments[0].sequenceNo && sameHdr(segments, pl.segments)
+//@   assert[call:Fprint] held(&pl.l)
+//@   loop 0: modifies
+//@   loop 0: invariant -1 <= rangeindex && rangeindex <= len(segments) && held(&pl.l)
+//@   loop 1: modifies all()
+//@   loop 1: invariant -1 <= rangeindex && rangeindex <= len(segments) && held(&pl.l) && len(segments) == 3 && sameHdr(segments, pl.segments) && pl == old(pl) && seq == segments[0].sequenceNo && forall(j, 0, 3, segments[j] != nil)
+//@   ensures !held(&pl.l)
+//@   ensures old(len(pl.segments)) < 3 ==> err != nil
+
+//@ extern func (f segmentFile) get() (r io.Reader, n int, err error)
+//@   modifies
+// a segment is looked up by its sequence number, under the read lock
+//@ func (pl *Playlist) Segment(seq int) (r io.Reader, n int, err error)
+//@   requires plOK(pl) && !held(&pl.l)
+//@   modifies held(&pl.l), pl.lastAccessTime
+//@   local rangeindex int
+//@   local seg *segment
+//@   assert[call:get] held(&pl.l) && seg != nil && seg.sequenceNo == seq && exists(j, 0, len(pl.segments), pl.segments[j] == seg)
+//@   loop 0: modifies
+//@   loop 0: invariant -1 <= rangeindex && rangeindex <= len(pl.segments) && held(&pl.l)
+//@   ensures !held(&pl.l)
+//@   ensures forall(j, 0, len(pl.segments), pl.segments[j].sequenceNo != seq) ==> err != nil
